@@ -307,13 +307,19 @@ pub fn drive(args: &[String]) {
         hostile.push((kind.into(), "child-nesting", format!("{}>", root(kind)).into_bytes(), b"<a>".to_vec(), child_limit));
         if kind != "notification" {
             hostile.push((kind.into(), "publish-text", format!("{}><publish uri=\"rsync://h/m/a.cer\">", root(kind)).into_bytes(), b"QUJD".to_vec(), F));
+            // a long (acceptable) start tag and then endless text: both belong to ONE element and share ONE budget
+            let mut p = format!("{}><publish uri=\"rsync://h/m/", root(kind)).into_bytes();
+            p.extend(std::iter::repeat(b'a').take(12_000_000));
+            p.extend_from_slice(b".cer\">");
+            hostile.push((kind.into(), "publish-long-tag-then-text", p, b"QUJD".to_vec(), F));
         }
     }
     for (kind, place, prefix, filler, limit) in hostile {
-        if limit == F && !full && place != "publish-text" {
+        if limit == F && !full && place != "publish-text" && !(place == "publish-long-tag-then-text" && kind == "snapshot") {
             continue; // the 100 MB budgets: one representative in the quick tier, all of them with --full-size 1
         }
-        let offset = prefix.len() as u64;
+        // the offending element starts where its start tag starts (for the long start tag that is 12 MB before the end of the prefix)
+        let offset = if place == "publish-long-tag-then-text" { (prefix.len() - 12_000_000 - 40) as u64 } else { prefix.len() as u64 };
         let src = Endless { prefix, filler, pos: 0, pulled: 0, hard_stop: 4 * F };
         match parse_traced(&kind, src, &mut t) {
             Ok((ok, pulled, refused)) => {
